@@ -1,4 +1,5 @@
-import NurbsVerif.Lemmas.A51Loops2
+import NurbsVerif.Lemmas.A51LoopsPts
+import NurbsVerif.Lemmas.A51LoopsRows
 import NurbsVerif.Lemmas.InsertAll
 
 /-! Consequences of `A51L.knotInsertionA51_eq`: the theorems proved about the index-by-index model
@@ -15,6 +16,15 @@ theorem knotInsertionA51_eq_model (p : ℕ) (U : ℕ → K) (P : List (List K)) 
 theorem knotInsertionA51_fun_eq (p : ℕ) (U : ℕ → K) (u : K) (r s k : ℕ) (hpk : p ≤ k) (hrs : r + s ≤ p) :
     (fun c : List (List K) => knotInsertionA51 p U c u r s k) = (fun c => knotInsertion p U c u r s k) :=
   funext (fun c => knotInsertionA51_eq_model p U c u r s k hpk hrs)
+
+/-- the list-of-rows branch as coded = its index-by-index model -/
+theorem knotInsertionRowsA51_eq_model (p : ℕ) (U : ℕ → K) (R : List (List (List K))) (u : K) (r s k : ℕ)
+    (hpk : p ≤ k) (hrs : r + s ≤ p) : knotInsertionRowsA51 p U R u r s k = knotInsertionRows p U R u r s k :=
+  A51L.knotInsertionRowsA51_eq p U R u r s k hpk hrs
+
+theorem knotInsertionRowsA51_fun_eq (p : ℕ) (U : ℕ → K) (u : K) (r s k : ℕ) (hpk : p ≤ k) (hrs : r + s ≤ p) :
+    (fun R : List (List (List K)) => knotInsertionRowsA51 p U R u r s k) = (fun R => knotInsertionRows p U R u r s k) :=
+  funext (fun R => knotInsertionRowsA51_eq_model p U R u r s k hpk hrs)
 
 variable [LinearOrder K] [IsStrictOrderedRing K]
 
